@@ -56,6 +56,17 @@ static int is_ult_actor(actor *a)
     return a->kind == A_MAIN || (a->kind == A_UNIT && a->utype == U_ULT);
 }
 
+struct op_thunk {
+    actor *a;
+    op_t *o;
+};
+static void exec_op(actor *a, op_t *o);
+static void exec_op_thunk(void *p)
+{
+    struct op_thunk *t = (struct op_thunk *)p;
+    exec_op(t->a, t->o);
+}
+unsigned long canary_call(void (*fn)(void *), void *arg, unsigned long seed);
 static void run_ops(actor *a)
 {
     volatile int pc; /* lives on the actor's own stack */
@@ -79,7 +90,34 @@ static void run_ops(actor *a)
         } else {
             if (G.want_hist)
                 hist(a, "op", a->ops[pc].code, 0, 0);
-            exec_op(a, &a->ops[pc]);
+            /* one op of an actor at a time: two would mean it runs on two streams */
+            if (__atomic_exchange_n(&a->in_op, 1, __ATOMIC_SEQ_CST))
+                viol("actor (kind %d id %d) executes two operations at once: it runs on two "
+                     "execution streams", a->kind, a->id);
+            if (G.canary && a->kind != A_EXT && (a->kind == A_MAIN || a->utype == U_ULT)) {
+                /* C02: live values in every callee-saved register, MXCSR, x87 CW and a
+                 * stack block across whatever switches the op performs */
+                struct op_thunk th = { a, &a->ops[pc] };
+                unsigned long seed = (unsigned long)G.seed * 0x9E3779B97F4A7C15ul +
+                                     (unsigned long)(a->id + 1) * 1000003ul + (unsigned long)pc;
+                int r0 = -1, r1 = -1;
+                ABT_self_get_xstream_rank(&r0);
+                unsigned long bad = canary_call(exec_op_thunk, &th, seed);
+                ABT_self_get_xstream_rank(&r1);
+                if (r0 != r1)
+                    stat_add("stream_hops", 1);
+                if (bad)
+                    viol("machine context of actor (kind %d id %d) not preserved across op %s: "
+                         "changed%s%s%s%s%s%s%s%s%s", a->kind, a->id, opnames[a->ops[pc].code],
+                         bad & 1 ? " rbx" : "", bad & 2 ? " rbp" : "", bad & 4 ? " r12" : "",
+                         bad & 8 ? " r13" : "", bad & 16 ? " r14" : "", bad & 32 ? " r15" : "",
+                         bad & 64 ? " MXCSR" : "", bad & 128 ? " x87-control-word" : "",
+                         bad & 256 ? " stack-contents" : "");
+                stat_add("canary_ops", 1);
+            } else {
+                exec_op(a, &a->ops[pc]);
+            }
+            __atomic_store_n(&a->in_op, 0, __ATOMIC_SEQ_CST);
         }
         if (a->pc_heap != pc)
             viol("program counter mismatch after op %s: stack=%d heap=%d (actor kind %d id %d)",
@@ -125,11 +163,19 @@ static void unit_body(void *arg, int fnid)
     a->ends++;
     notify_done();
 }
-static void unit_fn0(void *arg)
+void unit_fn0_shim(void *arg); /* canary.S: entry alignment check, then unit_fn0 */
+void unit_fn1_shim(void *arg);
+void unit_entry_misaligned(void *arg, long rspmod)
+{
+    (void)arg;
+    viol("a work unit's function was entered with a misaligned stack (rsp %% 16 == %ld, the ABI demands 8)",
+         rspmod);
+}
+void unit_fn0(void *arg)
 {
     unit_body(arg, 0);
 }
-static void unit_fn1(void *arg)
+void unit_fn1(void *arg)
 {
     unit_body(arg, 1);
 }
